@@ -59,6 +59,7 @@ class FnTarget:
         self.tail = None       # proof text put before the closing brace of the body (unit-returning fns only)
         self.closures = {}     # closure ordinal -> contract text for the k-th closure expression of the body
         self.params_to_let = False  # R8: destructuring closure parameters become a `let` at the head of the closure body
+        self.map_to_match = set()   # R13: headers of closures whose `RECV.map(|p| body)` is written out as a match
         self.omit = False
         self.canary = True
         self.opt_member = False  # `//@ fn? NAME`: the member may be absent from the impl/trait (skipped + recorded)
@@ -326,6 +327,15 @@ class Assembler:
                             blk.bare = True
                         elif d == 'closure-params-to-let':
                             blk.cur.params_to_let = True
+                        elif d.startswith('result-map-to-match '):
+                            # R13 (opt-in): `RECV.map(|p| body)` on a Result, addressed by the closure's parameter list
+                            # `/|p|/`, is written out by the definition of Result::map:
+                            # `match RECV { Ok(p) => Ok(body), Err(e) => Err(e) }` (Verus rejects a closure that captures
+                            # a mutable reference; on a receiver that is not a Result the match does not type-check -> UNDECIDED)
+                            key_ = _loop_key(d[len('result-map-to-match '):])
+                            if not isinstance(key_, str):
+                                raise UnitSyntax('line %d: result-map-to-match needs /|params|/' % (i + 1))
+                            blk.cur.map_to_match.add(''.join(key_.split()))
                         elif d == 'no-canary':
                             blk.cur.canary = False
                         elif d.startswith('as-spec '):
@@ -652,6 +662,37 @@ class Assembler:
                                     bq += 1
                                 btext = text[st[pe + 1].start:st[bq - 1].end]
                             ctext = ctext.replace('$body', ' '.join(btext.split()))
+                    if tgt and chdr in tgt.map_to_match:
+                        # R13: RECV.map(|p| body)  ->  match RECV { Ok(p) => Ok(body), Err(e) => Err(e) }
+                        if not (st[k - 1].text == '(' and st[k - 2].text == 'map' and st[k - 3].text == '.'):
+                            raise AnchorLost('closure %s of fn %s is not the argument of `.map(`' % (chdr, tgt.name))
+                        kc = match_close(st, k - 1)
+                        r0 = k - 4
+                        rdepth = 0
+                        while r0 > a:
+                            tr = st[r0]
+                            if tr.kind == 'punct' and tr.text in ')]}':
+                                rdepth += 1
+                            elif tr.kind == 'punct' and tr.text in '([{':
+                                if rdepth == 0:
+                                    break
+                                rdepth -= 1
+                            elif rdepth == 0 and (tr.text in (';', ',', '=', '=>', 'return')):
+                                break
+                            r0 -= 1
+                        r0 += 1
+                        last = kc - 1
+                        if st[last].text == ',':
+                            last -= 1
+                        ptext = text[st[k].end:st[pe].start].strip()
+                        edits.append((st[r0].start, st[r0].start, 'match '))
+                        edits.append((st[k - 3].start, st[pe].end, ' { Ok(%s) => Ok(' % ptext))
+                        edits.append((st[last].end, st[kc].end, '), Err(__rbv_e) => Err(__rbv_e) }'))
+                        self.rewrites.append('R13 %s:%d closure #%d of fn %s: `RECV.map(|%s| body)` written out as `match RECV { Ok(%s) => Ok(body), Err(e) => Err(e) }` (definition of Result::map)'
+                                             % (blk.relpath, src.line_of(t.start), closure_no, tgt.name, ptext, ptext))
+                        tgt.map_to_match.discard(chdr)
+                        k = pe + 1
+                        continue
                     # R8 (opt-in, `//@ closure-params-to-let`): a closure parameter that is a destructuring pattern,
                     # `|S { f, .. }| body`, is moved into a `let` at the head of the body:
                     # `|__rbv_pN| { let S { f, .. } = __rbv_pN; body }` -- the definition of a pattern parameter
@@ -789,6 +830,8 @@ class Assembler:
                     found += 1
                 blk.eta_found[ctor_full] = blk.eta_found.get(ctor_full, 0) + found
             if tgt:
+                for n in tgt.map_to_match:
+                    raise AnchorLost('fn %s has no `.map(%s ..)` in %s' % (tgt.name, n, blk.relpath))
                 for n in tgt.closures:
                     if n not in seen_closures and ('closure', n) not in tgt.optional:
                         raise AnchorLost('fn %s has no closure #%s (found %d) in %s' % (tgt.name, n, closure_no, blk.relpath))
@@ -881,7 +924,7 @@ class Assembler:
                         else:
                             k += 1
         for ctor in blk.eta:
-            if not blk.eta_found.get(ctor):
+            if not blk.eta_found.get(ctor) and not blk.decl_only:   # a declaration (include-external) has no body to rewrite
                 raise AnchorLost('no `(%s)` argument in %s of %s' % (ctor, item.name or item.kind, blk.relpath))
         # stable sort on the offsets only: edits at the same offset keep their insertion order
         # (ret-naming ')' before the spec text of a body-less trait method)
